@@ -351,23 +351,25 @@ def run(ctx: Ctx) -> None:
                ("mc-variants", _consts(["r1", "r2"], ["s1"], [], (1, 2), ALLM, ["design"] + WRONG, sym=True))]
         # (reqs, pipes, unixes, maxreqs, modes, mode)
         dumps = [(["r1", "r2"], [], [], (1, 2), ALLM, "all"),
-                 (["r1", "r2"], ["s1"], [], (1,), ALLM, "cover"),
+                 (["r1", "r2"], ["s1"], [], (1,), ALLM, "all"),
                  (["r1", "r2", "r3"], ["s1"], ["s2"], (1,), ALLM, "cover")]
         n_random = 30
     else:
         mcs = [("mc-design-3req-3srv", _consts(["r1", "r2", "r3"], ["s1", "s3"], ["s2"], (1, 2), ALLM, sym=True)),
                ("mc-variants", _consts(["r1", "r2", "r3"], ["s1"], ["s2"], (1, 2), ALLM, ["design"] + WRONG, sym=True))]
         dumps = [(["r1", "r2"], [], [], (1, 2), ALLM, "all"),
-                 (["r1", "r2"], ["s1"], [], (1, 2), ALLM, "all"),
+                 (["r1", "r2"], ["s1"], [], (1,), ALLM, "all"),
                  (["r1", "r2", "r3"], [], [], (1,), ALLM, "all"),
-                 (["r1", "r2"], ["s1"], ["s2"], (1,), ALLM, "all"),
+                 (["r1", "r2"], ["s1"], [], (2,), ALLM, "cover"),
+                 (["r1", "r2"], ["s1"], ["s2"], (1,), ALLM, "cover"),
                  (["r1", "r2", "r3"], ["s1"], ["s2"], (1, 2), ALLM, "cover"),
                  (["r1", "r2"], ["s1", "s3"], ["s2"], (2,), ALLM, "cover")]
-        n_random = 600
+        n_random = 300
 
     def mc_job(name, consts):
         cfg = render_cfg(constants=consts, invariants=MODEL_INVS, symmetry="Symmetry")
-        return lambda: run_tlc(wd, "ServeStart", cfg, workers=W, cfg_name=f"SS_{name}.cfg", timeout=1800)
+        return lambda: run_tlc(wd, "ServeStart", cfg, workers=W, cfg_name=f"SS_{name}.cfg", timeout=1800,
+                               coverage=True)
 
     def dump_job(k, d):
         cfg = render_cfg(constants=_consts(*d[:5]), invariants=[f"Inv_{c}" for c in CLAUSES])
@@ -445,10 +447,8 @@ def run(ctx: Ctx) -> None:
                          "pb": 2 if quick else None})
             if not quick:
                 scns.append({"mode": mode, "maxReq": 1, "reqs": ["r1", "r2", "r3"], "pipes": [], "unixes": [],
-                             "pb": None})
+                             "pb": 2})
                 scns.append({"mode": mode, "maxReq": 1, "reqs": ["r1", "r2"], "pipes": ["s1"], "unixes": ["s2"],
-                             "pb": 3})
-                scns.append({"mode": mode, "maxReq": 2, "reqs": ["r1", "r2", "r3"], "pipes": ["s1"], "unixes": [],
                              "pb": 2})
         bstats = []
         b_complete = True
@@ -462,7 +462,7 @@ def run(ctx: Ctx) -> None:
             b_complete = False
         for scn in scns:
             outs, comp, nexec = explore(lambda p, scn=scn: run_real_schedule(scn, p),
-                                        limit=150 if quick else 2500, preemption_bound=scn["pb"])
+                                        limit=150 if quick else 1500, preemption_bound=scn["pb"])
             b_complete = b_complete and comp
             na = 0
             for o in outs:
@@ -481,7 +481,11 @@ def run(ctx: Ctx) -> None:
                 ctx.sample({"level": "B", "scenario": scn, "schedule": outs[-1]["schedule"],
                             "real_trace": outs[-1]["record"]})
         ctx.extra["level_B"] = bstats
+        # exhaustive: TLC explored every model completely, every path of the "all" graphs was replayed and every
+        # real schedule of the Level-B scenarios (under their preemption bound) was executed; "cover" graphs are
+        # sampled (edge-class cover + random walks)
         ctx.exhaustive = complete_all and b_complete
+        ctx.extra["sampled_graphs"] = ["+".join(d[0] + d[1] + d[2]) for d in dumps if d[5] != "all"]
         T["level_B_dfs"] = round(time.time() - t2, 1)
     finally:
         quiet.__exit__()
